@@ -250,18 +250,26 @@ func run(c *rig.Ctx) {
 	// (c) generated programs with live hardware sources
 	nprog := c.N(300, 6000)
 	c.Part("programs", nprog, func(i int64, r *rig.Rng) {
-		p := prog.Generate(r, prog.Options{Interrupts: true, AllOpcodes: i%2 == 0, Hardware: i%3 == 0})
+		p := prog.Generate(r, prog.Options{Interrupts: true, AllOpcodes: i%2 == 0, Hardware: i%3 == 0, Stops: i%2 == 1})
 		if i%6 == 5 {
 			p = prog.IdleLoops(r) // wait-for-interrupt loops instead of HALT
 			c.Count("idle_loop_programs", 1)
 		}
-		pm := rig.MustNew(p.ROM, rig.Opts{})
+		// one program in five runs with the CPU trace option on
+		popts := rig.Opts{}
+		if i%5 == 3 {
+			popts.DebugCPU = true
+			defer rig.QuietStdout()()
+			c.Count("programs_with_cpu_trace", 1)
+		}
+		pm := rig.MustNew(p.ROM, popts)
 		f := lockstep.New(pm)
 		f.Violate = func(prop, class, msg string) {
 			if prop == "C04" {
 				c.Violate("program-"+class, msg, map[string]any{"program": p.Describe()})
 			}
 		}
+		f.ThroughStop = i%2 == 1
 		if i%2 == 1 {
 			// key events at random machine cycles: they are no business of the CPU's
 			_, keys := f.RunCyclesWithKeys(int(c.N(20000, 60000)), r, 250)
